@@ -4,7 +4,7 @@ from hypothesis import strategies as st
 from gen.fa import POOL, names
 
 BLANKS = ["_", "□", "B"]
-EXTRA = ["x", "X", "#", "$"]
+EXTRA = ["x", "X", "#", "$", "%", "~", "!", "@", "^", "&", "*"]
 
 
 @st.composite
